@@ -546,7 +546,28 @@ class IfaceExecutor(X.UnitsExecutor):
             return [(st, VInt(z3.Int(fresh_name("int_of_float"))))]
         return super().b_int(st, args, kwargs, node)
 
+    def _list_view(self, st, v):
+        """(length term, elem(k)) of a list-like value (concrete list, abstract list, symbolic sequence), else None."""
+        if isinstance(v, VRef):
+            o = st.obj(v.ref)
+            if o.kind == "alist":
+                return o.data.length, o.data.elem
+            if o.kind == "list" and o.data is not None:
+                items = list(o.data)
+                return z3.IntVal(len(items)), (lambda k, items=items: X._sel(items, k))
+            return None
+        if isinstance(v, VSeq) and not v.is_bytes:
+            return v.length, v.elem
+        return None
+
     def binop(self, st, op, a, b, node, inplace=False):
+        if op == "Add" and not inplace:
+            va, vb = self._list_view(st, a), self._list_view(st, b)
+            ca, cb = self.concrete_items(st, a), self.concrete_items(st, b)
+            if va is not None and vb is not None and not (ca is not None and cb is not None):
+                (na, ea), (nb, eb) = va, vb
+                seq = VSeq(z3.simplify(na + nb), lambda k, na=na, ea=ea, eb=eb: X._ite_val(k < na, ea(k), eb(k - na)), "unk")
+                return [(st, self.new_alist(st, seq))]
         fa = isinstance(a, VExt) and a.sort == "Float"
         fb = isinstance(b, VExt) and b.sort == "Float"
         if fa or fb:
